@@ -157,3 +157,280 @@ def principal_text(pid):
                                            "upper-case spelling of each; 6-8 single edits of every 9th canonical text",
                                   "vectors": len(cmds), "disagreements": len(failures), "labelled": "bounded, NOT proved",
                                   "wall_s": round(time.time() - t0, 1)}]}
+
+
+# ------------------------------------------------------------------ an independent decoder written from spec/Candid.md
+class SpecDecodeError(Exception):
+    pass
+
+
+class _Rd:
+    def __init__(self, b):
+        self.b, self.p = b, 0
+
+    def byte(self):
+        if self.p >= len(self.b):
+            raise SpecDecodeError("truncated")
+        v = self.b[self.p]
+        self.p += 1
+        return v
+
+    def leb(self):
+        v, s = 0, 0
+        while True:
+            x = self.byte()
+            v |= (x & 0x7f) << s
+            s += 7
+            if not x & 0x80:
+                return v
+
+    def sleb(self):
+        v, s = 0, 0
+        while True:
+            x = self.byte()
+            v |= (x & 0x7f) << s
+            s += 7
+            if not x & 0x80:
+                return v - (1 << s) if x & 0x40 else v
+
+    def take(self, n):
+        if self.p + n > len(self.b):
+            raise SpecDecodeError("truncated")
+        v = self.b[self.p:self.p + n]
+        self.p += n
+        return v
+
+
+PRIM = {-1: "null", -2: "bool", -3: "nat", -4: "int", -5: "nat8", -6: "nat16", -7: "nat32", -8: "nat64", -9: "int8", -10: "int16",
+        -11: "int32", -12: "int64", -13: "float32", -14: "float64", -15: "text", -16: "reserved", -17: "empty", -24: "principal"}
+FIXED = {"nat8": 1, "nat16": 2, "nat32": 4, "nat64": 8, "int8": 1, "int16": 2, "int32": 4, "int64": 8, "float32": 4, "float64": 8}
+
+
+def spec_decode(msg):
+    """returns (types, values) of a Candid message; raises SpecDecodeError if it is not well formed per the spec"""
+    r = _Rd(msg)
+    if r.take(4) != b"DIDL":
+        raise SpecDecodeError("magic")
+    n = r.leb()
+    table = []
+    for _ in range(n):
+        op = r.sleb()
+        if op == -18 or op == -19:
+            table.append(("opt" if op == -18 else "vec", r.sleb()))
+        elif op == -20 or op == -21:
+            k = r.leb()
+            fs, prev = [], -1
+            for _ in range(k):
+                i = r.leb()
+                if i <= prev or i >= 2 ** 32:
+                    raise SpecDecodeError("field ids not strictly ascending")
+                prev = i
+                fs.append((i, r.sleb()))
+            table.append(("record" if op == -20 else "variant", fs))
+        else:
+            raise SpecDecodeError(f"table entry with opcode {op} (only composite types belong in the table)")
+
+    def ref(t):
+        if t >= 0:
+            if t >= len(table):
+                raise SpecDecodeError(f"type index {t} out of range")
+            return t
+        if t not in PRIM:
+            raise SpecDecodeError(f"unknown primitive {t}")
+        return PRIM[t]
+
+    for e in table:
+        if e[0] in ("opt", "vec"):
+            ref(e[1])
+        else:
+            for _, t in e[1]:
+                ref(t)
+    na = r.leb()
+    args = [ref(r.sleb()) for _ in range(na)]
+
+    def ty(t):
+        if isinstance(t, str):
+            return t
+        e = table[t]
+        if e[0] in ("opt", "vec"):
+            return (e[0], ty(ref(e[1])))
+        return (e[0], [(i, ty(ref(x))) for i, x in e[1]])
+
+    def val(t):
+        if isinstance(t, str):
+            if t in FIXED:
+                return int.from_bytes(r.take(FIXED[t]), "little")
+            if t == "nat":
+                return r.leb()
+            if t == "int":
+                return r.sleb()
+            if t == "text":
+                return r.take(r.leb()).decode("utf-8")
+            if t == "null" or t == "reserved":
+                return None
+            if t == "bool":
+                b = r.byte()
+                if b > 1:
+                    raise SpecDecodeError("bool")
+                return bool(b)
+            raise SpecDecodeError("value of type " + t)
+        e = table[t]
+        if e[0] == "opt":
+            tag = r.byte()
+            if tag > 1:
+                raise SpecDecodeError("opt tag")
+            return ("some", val(ref(e[1]))) if tag else None
+        if e[0] == "vec":
+            k = r.leb()
+            return [val(ref(e[1])) for _ in range(k)]
+        if e[0] == "record":
+            return [(i, val(ref(x))) for i, x in e[1]]
+        idx = r.leb()
+        if idx >= len(e[1]):
+            raise SpecDecodeError("variant index")
+        return ("variant", e[1][idx][0], val(ref(e[1][idx][1])))
+
+    vals = [val(a) for a in args]
+    if r.p != len(msg):
+        raise SpecDecodeError("trailing bytes")
+    return [ty(a) for a in args], vals
+
+
+def encoder_corpus(pid):
+    """BOUNDED stand-in for TypeSerialize::build_type / serialize and the composite value serializers:
+    messages produced by the real encoder for a parametrised corpus are read back by the independent
+    spec decoder above and compared with the (type, value) that was asked for."""
+    t0 = time.time()
+    exe, err = build_replay()
+    if not exe:
+        return {"undecided": [f"bounded stand-in: the real crate does not build: {err}"], "failures": []}
+
+    def chain(k, n, leaf):
+        t = leaf
+        for _ in range(n):
+            t = (k, t)
+        return t
+
+    cases = []
+    for n in (1, 2, 5, 63, 64, 65, 100, 127, 128, 129):
+        cases.append((f"tt optchain {n}", chain("opt", n, "nat8"), None))
+        cases.append((f"tt vecchain {n}", chain("vec", n, "nat16"), []))
+    for n in (0, 1, 127, 128, 129, 16383, 16384, 16385, 16511, 16512):
+        cases.append((f"tt text {n}", "text", "a" * n))
+        cases.append((f"tn text {n}", "text", "a" * n))
+        cases.append((f"tt blob {n}", ("vec", "nat8"), [7] * n))
+        cases.append((f"tn blob {n}", ("vec", "nat8"), [7] * n))
+        cases.append((f"tt vecnat16 {n}", ("vec", "nat16"), [i & 0xffff for i in range(n)]))
+        cases.append((f"tn vecnat16 {n}", ("vec", "nat16"), [i & 0xffff for i in range(n)]))
+    for n in (0, 1, 200, 16384):
+        cases.append((f"tn vecnat {n}", ("vec", "nat"), list(range(n))))
+    for n in (1, 2, 64, 65, 130):
+        cases.append((f"tt rec {n}", ("record", [(3 * i, "nat8") for i in range(n)]), [(3 * i, i & 0xff) for i in range(n)]))
+        cases.append((f"tt var {n}", ("variant", [(2 * i, "null") for i in range(n)]), ("variant", 2 * (n - 1), None)))
+    p = subprocess.run([exe], input="\n".join(c[0] for c in cases) + "\n", capture_output=True, text=True, timeout=600)
+    outs = p.stdout.splitlines()
+    failures = []
+    for (cmd, ety, eval_), o in zip(cases, outs):
+        o = o.strip()
+        why = None
+        if not o.startswith("ok "):
+            why = "encoder returned " + o[:120]
+        else:
+            try:
+                tys, vals = spec_decode(bytes.fromhex(o[3:]))
+                if tys != [ety]:
+                    why = f"independent decoder reads type {str(tys)[:160]} instead of {str([ety])[:160]}"
+                elif vals != [eval_]:
+                    why = f"independent decoder reads a different value ({str(vals)[:120]})"
+            except SpecDecodeError as e:
+                why = f"message is not well formed per spec/Candid.md: {e}"
+            except Exception as e:  # malformed utf-8 etc.
+                why = f"message is not well formed: {e}"
+        if why:
+            failures.append({
+                "obligation": "bounded-standin::encoder output is read back by an independent spec decoder", "unit": "bounded-standin",
+                "item": "IDLBuilder / TypeSerialize / ValueSerializer", "fn": "serialize", "kind": "bounded-standin",
+                "file": "rust/candid/src/ser.rs", "line": 0, "source_text": "", "clause": None,
+                "verifier_message": f"{cmd}: {why}\nmessage: {o[:400]}",
+                "witness": {"confirmed": True, "function": "rust/candid/src/ser.rs (whole encoder)", "input": cmd,
+                            "expected": "a message the spec decoder reads back as the requested (type, value)", "got": why,
+                            "replay_cmd": f"echo '{cmd}' | {exe}"}})
+            if len(failures) >= 3:
+                break
+    return {"failures": failures, "undecided": [], "obligations": 0, "discharged": 0, "trusted": [],
+            "cmds": [f"{exe} < corpus (bounded stand-in)"],
+            "backends": ["BOUNDED stand-in (real encoder output read back by an independent decoder written from the spec; not a proof)"],
+            "samples": [],
+            "bounded_standins": [{"functions": ["ser.rs TypeSerialize::build_type/serialize", "composite value serializers", "IDLValue serialisation"],
+                                  "bound": "opt/vec chains of depth 1..129, text/blob/vec nat16 of length 0..16512 (typed-untyped and native paths), "
+                                           "vec nat up to 16384, records/variants with 1..130 fields",
+                                  "vectors": len(cases), "disagreements": len(failures), "labelled": "bounded, NOT proved",
+                                  "wall_s": round(time.time() - t0, 1)}]}
+
+
+def quota_corpus(pid):
+    """BOUNDED stand-in for the unverified metering glue (utils.rs decode_args_with_config_debug, de.rs check_subtype /
+    recoverable_visit_some / deserialize_with_type): for 8 messages with surplus arguments, surplus fields, a mismatched
+    option, zero-sized vectors and function references the measured cost must not depend on the quotas supplied, a quota
+    pair equal to the measured cost must reproduce the unmetered result, and every smaller decoding quota must fail
+    with a QUOTA error (never another error, never a different value)."""
+    t0 = time.time()
+    exe, err = build_replay()
+    if not exe:
+        return {"undecided": [f"bounded stand-in: the real crate does not build: {err}"], "failures": []}
+
+    def run(lines):
+        p = subprocess.run([exe], input="\n".join(lines) + "\n", capture_output=True, text=True, timeout=600)
+        return [l.strip() for l in p.stdout.splitlines()]
+
+    failures, nvec = [], 0
+
+    def fail(case, cmd, exp, got):
+        failures.append({
+            "obligation": "bounded-standin::quotas never change the result / cost is quota independent", "unit": "bounded-standin",
+            "item": "decode_args_with_config_debug", "fn": "decode_args_with_config_debug", "kind": "bounded-standin",
+            "file": "rust/candid/src/utils.rs", "line": 0, "source_text": "", "clause": None,
+            "verifier_message": f"quota corpus message #{case}: `{cmd}` gave `{got[:200]}`, expected {exp}",
+            "witness": {"confirmed": True, "function": "candid::utils::decode_args_with_config_debug", "input": cmd,
+                        "expected": exp, "got": got[:300], "replay_cmd": f"echo '{cmd}' | {exe}"}})
+
+    BIG1, BIG2 = 10 ** 9, 2 * 10 ** 9 + 7
+    for case in range(8):
+        base = run([f"q {case} - -", f"q {case} {BIG1} {BIG1}", f"q {case} {BIG2} {BIG2}"])
+        nvec += 3
+        if not all(b.startswith("ok ") for b in base):
+            fail(case, f"q {case} - -", "ok (unmetered and generously metered decoding succeed)", " / ".join(base))
+            continue
+        val = base[0][3:].split(" | ")[0]
+        costs = []
+        for b in base[1:]:
+            v, c = b[3:].split(" | ")
+            cd, cs = [int(x[5:-1]) for x in c.split(" ")]
+            costs.append((cd, cs))
+            if v != val:
+                fail(case, f"q {case} {BIG1} {BIG1}", f"the unmetered value {val[:80]}", v)
+        if costs[0] != costs[1]:
+            fail(case, f"q {case} {BIG2} {BIG2}", f"the same cost {costs[0]} as under quotas {BIG1}", str(costs[1]))
+            continue
+        cd, cs = costs[0]
+        exact = run([f"q {case} {cd} {cs}"])[0]
+        nvec += 1
+        if not exact.startswith("ok ") or exact[3:].split(" | ")[0] != val:
+            fail(case, f"q {case} {cd} {cs}", "ok with the unmetered value (quota = measured cost)", exact)
+        lows = list(range(max(0, cd - 260), cd)) + list(range(0, max(0, cd - 260), max(1, cd // 60)))
+        outs = run([f"q {case} {q} {cs}" for q in lows])
+        nvec += len(lows)
+        for q, o in zip(lows, outs):
+            if o != "err QUOTA":
+                fail(case, f"q {case} {q} {cs}", f"a quota error (decoding quota {q} < measured cost {cd})", o)
+                break
+        if len(failures) >= 3:
+            break
+    return {"failures": failures[:3], "undecided": [], "obligations": 0, "discharged": 0, "trusted": [],
+            "cmds": [f"{exe} < quota corpus (bounded stand-in)"],
+            "backends": ["BOUNDED stand-in (real decoder under quota sweeps; not a proof)"], "samples": [],
+            "bounded_standins": [{"functions": ["utils.rs decode_args_with_config_debug", "de.rs check_subtype / recoverable_visit_some / deserialize_with_type (metering glue)"],
+                                  "bound": "8 fixed messages (surplus args/fields, mismatched opt, vec null, func references); quotas: none, two generous pairs, "
+                                           "exactly the measured cost, every decoding quota in [cost-260, cost) and a coarse sweep below",
+                                  "vectors": nvec, "disagreements": len(failures), "labelled": "bounded, NOT proved",
+                                  "wall_s": round(time.time() - t0, 1)}]}
